@@ -62,11 +62,10 @@ pub(super) fn execute_distinct<'a, S: GraphSnapshot + 'a>(
                 .map(|(_, v)| format!("{:?}", v))
                 .collect::<Vec<_>>()
                 .join(",");
-            if seen.insert(key) {
-                return true;
-            }
+            return seen.insert(key);
         }
-        false
+        // An error raised while producing a row is passed on, not dropped with the duplicates.
+        true
     })))
 }
 
@@ -149,11 +148,10 @@ pub(super) fn execute_union<'a, S: GraphSnapshot + 'a>(
                     .map(|(_, v)| format!("{:?}", v))
                     .collect::<Vec<_>>()
                     .join(",");
-                if seen.insert(key) {
-                    return true;
-                }
+                return seen.insert(key);
             }
-            false
+            // An error raised while producing a row is passed on, not dropped with the duplicates.
+            true
         })))
     }
 }
